@@ -2545,3 +2545,13 @@ def run_dumps_C14(c):
 
 def run_dumps_C15(c):
     return _dumps_view(c, 'C15')
+
+
+def run_asmtables_C18(c):
+    """view for C18: an accepted AssemblyTables request must not end in an unhandled exception (the contents
+    of the tables are outside the twenty properties: DESIGN.md 11.5)"""
+    r = run_asmtables(c)
+    keep = [v for v in r['violations'] if 'crashed' in v['kind']]
+    r['violations'] = keep
+    r['outcome'] = 'ok' if not keep else 'violation'
+    return r
